@@ -103,10 +103,9 @@ fn worker_threads_alive() -> Vec<String> {
 /// Child process: run one scenario, print one JSON line.
 pub fn one(args: &Args) {
     let n = args.u64("n", 1) as usize;
-    let tasks: Vec<TaskKind> = args.get("tasks").unwrap_or("").chars().map(kind_from).collect();
     let script = script_from(args.u64("script", 0) as usize);
     let plan_seed = args.u64("plan", 0);
-    let sc = Scenario { n, tasks, script };
+    let sc = Scenario::parse(n, args.get("tasks").unwrap_or(""), script);
     silence_task_panics();
     T0.set(Instant::now()).ok();
     // delay plan
@@ -147,6 +146,7 @@ pub fn one(args: &Args) {
     let mut fp = 0u64;
     let mut nevents = 0usize;
     let mut maxrun = 0usize;
+    let mut monitor_events: Vec<(String, u64)> = Vec::new();
     if !h.is_finished() {
         // blocked forever? two samples one second apart: every thread asleep with unchanged CPU ticks
         let a = thread_table();
@@ -203,6 +203,7 @@ pub fn one(args: &Args) {
         fp = fingerprint(&o);
         nevents = o.events.len();
         maxrun = o.max_running;
+        monitor_events = o.monitor_events.clone();
         out_events = trace_string(&o);
         if out_events.len() > 600 {
             out_events.truncate(600);
@@ -217,6 +218,7 @@ pub fn one(args: &Args) {
         ("viol", J::Arr(viol.iter().map(|(s, w)| J::Arr(vec![J::s(s), J::s(w)])).collect())),
         ("inconclusive", inconclusive.map(J::s).unwrap_or(J::Null)),
         ("failpoint_hits", J::Arr(hits)),
+        ("monitor_events", J::Arr(monitor_events.iter().map(|(k, v)| J::Arr(vec![J::s(k), J::u(*v)])).collect())),
     ]);
     println!("{}", j.to_string());
     // detached threads (recovery, possibly blocked lifecycle) must not keep the process alive
@@ -290,6 +292,16 @@ fn run_spec(s: &Spec, r: &mut Report) {
             }
         }
     }
+    if let Some(h) = j.get("monitor_events").and_then(|x| x.as_arr()) {
+        for e in h {
+            if let Some(a) = e.as_arr() {
+                r.count(&format!("monitor_events.{}", a[0].as_str().unwrap_or("?")), a[1].as_i64().unwrap_or(0) as u64);
+            }
+        }
+    }
+    if s.tasks.starts_with('M') {
+        r.count("scenario_runs_with_monitor", 1);
+    }
     if let Some(w) = j.get("inconclusive").and_then(|x| x.as_str()) {
         r.inconclusive(format!("{} [{} workers, tasks {:?}, {:?}]", w, s.n, s.tasks, script_from(s.script)));
     }
@@ -337,12 +349,24 @@ pub fn specs(seed: u64, thorough: bool) -> Vec<Spec> {
             v.push(Spec { n: 1, tasks: t.into(), script, plan: rng.next_u64() | 1 });
         }
     }
+    // a registered monitor (subscribed to everything) with tasks that wait longer than the pool's 100 ms overload
+    // threshold behind N long sleepers: being reported as overload must not change what is executed
+    for n in 1..=3usize {
+        for tail in ["rr", "rpr", "yqz", "rrrrrr", "pzqr"] {
+            for script in [0usize, 1, 2, 3, 6] {
+                let tasks = format!("M{}{}", "L".repeat(n), tail);
+                v.push(Spec { n, tasks, script, plan: if script == 0 { 0 } else { rng.next_u64() | 1 } });
+            }
+        }
+    }
     // randomised: larger pools, up to 64 tasks
     for _ in 0..(if thorough { 12_000 } else { 600 }) {
         let n = rng.urange(1, 8);
         let len = match rng.below(4) { 0 => rng.urange(0, 6), 1 | 2 => rng.urange(6, 24), _ => rng.urange(24, 64) };
         let pp = rng.below(4);
         let tasks: String = (0..len).map(|_| if rng.below(10) < pp { if rng.chance(1, 2) { 'p' } else { 'q' } } else { *rng.pick(&normal) }).collect();
+        // one random scenario in four runs with a monitor registered
+        let tasks = if rng.chance(1, 4) { format!("M{}", tasks) } else { tasks };
         v.push(Spec { n, tasks, script: *rng.pick(&[0usize, 1, 2, 3, 6, 7]), plan: rng.next_u64() | 1 });
     }
     v
@@ -373,7 +397,7 @@ pub fn main(args: &Args) {
     for h in hs {
         total.merge(h.join().unwrap());
     }
-    total.write(out, "thread-pool scenarios, one process each: N in 1..3 x every panic subset of every task list of length 0..4 (task bodies return/yield/spin/sleep, panic before or after work) x 6 lifecycle scripts (wait+barrier round+stop+drop, stop with tasks still queued+drop, wait+barrier round+drop without stop, immediate drop without stop, and restart: run-stop-start-run followed by stop+drop or drop) + never-started and start-stop-drop pools + repeated panics on a one-worker pool + random scenarios with 1..8 workers and up to 64 tasks; each under a seeded delay plan on 11 failpoints inside pool/recovery code. distinct = distinct (scenario, sequence of (event, task, worker name)) i.e. observed interleavings; non-trivial = at least one task event", None, &["interleavings are sampled (delay plans + OS scheduling), not enumerated: the property's systematic preemption-bounded quantifier is not delivered by this family", "blocked-forever is decided by a 6 s watchdog plus two /proc samples one second apart showing every thread asleep with unchanged CPU ticks; otherwise the run is inconclusive", "the pool's recovery thread is detached by design and is not counted as a worker thread"]);
+    total.write(out, "thread-pool scenarios, one process each: N in 1..3 x every panic subset of every task list of length 0..4 (task bodies return/yield/spin/sleep, panic before or after work) x 6 lifecycle scripts (wait+barrier round+stop+drop, stop with tasks still queued+drop, wait+barrier round+drop without stop, immediate drop without stop, and restart: run-stop-start-run followed by stop+drop or drop) + never-started and start-stop-drop pools + repeated panics on a one-worker pool + pools with a registered monitor whose tasks queue for more than the 100 ms overload threshold behind N long sleepers + random scenarios (one in four with a monitor) with 1..8 workers and up to 64 tasks; each under a seeded delay plan on 11 failpoints inside pool/recovery code. distinct = distinct (scenario, sequence of (event, task, worker name)) i.e. observed interleavings; non-trivial = at least one task event", None, &["interleavings are sampled (delay plans + OS scheduling), not enumerated: the property's systematic preemption-bounded quantifier is not delivered by this family", "blocked-forever is decided by a 6 s watchdog plus two /proc samples one second apart showing every thread asleep with unchanged CPU ticks; otherwise the run is inconclusive", "the pool's recovery thread is detached by design and is not counted as a worker thread"]);
 }
 
 pub fn replay_one(args: &Args) {
